@@ -72,6 +72,9 @@ theorem fifo_wakeOne (q : Quirks) (s : State) (k : Key) :
     have hsub : rest.Sublist s.wakeQ := by rw [hw]; exact List.sublist_cons_self w rest
     simp only []
     split
+    · exact (FifoStep.of_sublist (lineOf_sublist (t := { s with wakeQ := rest }) hsub (List.Sublist.refl _) k)).trans
+        (.of_eq (lineOf_notify w.key k _))
+    split
     · exact .of_sublist (lineOf_sublist (t := { s with wakeQ := rest }) hsub (List.Sublist.refl _) k)
     · next e st' hp =>
       split
@@ -268,6 +271,8 @@ theorem wakeOne_serves_head (q : Quirks) (s : State) (c : Conn) (k : Key) (v : E
   · exact absurd h (hne _ _)
   · next w rest hw =>
     simp only [] at h
+    split at h
+    · rw [notify_out] at h; exact absurd h (hne _ _)
     split at h
     · exact absurd h (hne _ _)
     · next e st' hp =>
